@@ -262,11 +262,49 @@ class Printer:
 
 # ------------------------------------------------------------------ S-expression for the Lean driver
 
+def set_indices(form, names):
+    """THE meaning of a written string set / rule set (mirrored by Cond.setDenotes in lean/YaraModel/Spec/Cond.lean):
+    item by item, each item's members in declaration order, duplicates kept.  ("id", k): exactly the k-th identifier —
+    never the identifiers that merely start with it; ("wild", p): every identifier starting with p; them / $*: all."""
+    idx = []
+    for it in form:
+        if it[0] == "id":
+            idx.append(it[1])
+        elif it[0] == "wild":
+            idx += [i for i, n in enumerate(names) if n.startswith(it[1])]
+        else:
+            idx += list(range(len(names)))
+    return idx
+
+
+_SXCTX = [None]      # (string identifiers of the rule, identifiers of the rules declared before it) while a rule is serialised
+
+
+def sx_rule(cond, names, rnames):
+    """the rule's condition with its sets AS WRITTEN ((sset;x$a;w$a;t) / (rsset;xr;wr)): the Lean specification expands them"""
+    _SXCTX[0] = (list(names), list(rnames))
+    try:
+        return sx(cond)
+    finally:
+        _SXCTX[0] = None
+
+
+def _written(st, rules):
+    ctx = _SXCTX[0]
+    names = ctx[1 if rules else 0] if ctx else None
+    if names is None or set_indices(st[0], names) != list(st[1]) or any(";" in n or "(" in n or ")" in n for n in names):
+        return "(set%s)" % "".join(";%d" % i for i in st[1])
+    items = []
+    for it in st[0]:
+        items.append("x" + names[it[1]] if it[0] == "id" else "w" + it[1] if it[0] == "wild" else "t")
+    return "(%s;%s)" % ("rsset" if rules else "sset", ";".join(items))
+
+
 def sx(e):
     h = e[0]
     S = lambda s: "$" if s == "cur" else "$%d" % s
     Q = lambda q: "(q;%s)" % q[0] if q[0] != "num" else "(q;num;%s)" % sx(q[1])
-    SET = lambda st: "(set%s)" % "".join(";%d" % i for i in st[1])
+    SET = lambda st: _written(st, h in ("ofrules", "pctrules"))
     if h == "int":
         return "(int;%d)" % e[1]
     if h == "flt":
